@@ -297,6 +297,14 @@ impl<'a> Tr<'a> {
                 if name == "clone" && args.is_empty() {
                     return Ok(recv);
                 }
+                if name == "into" && args.is_empty() {
+                    // `x.into()` where an Option<X> is expected: `Some(x)`
+                    if let Some(Ty::Option(t)) = hint {
+                        if join(t, &recv.ty).is_ok() {
+                            return Ok(Val { s: format!("(Some {})", recv.s), ty: Ty::Option(Box::new(recv.ty.clone())) });
+                        }
+                    }
+                }
                 Err(unsupported(at, &format!("method `{}::{}`: {} (add it to functions.txt before its caller)", n, name, if fs.is_empty() { "not a configured function" } else { "ambiguous" })))
             }
             Ty::Option(inner) => self.option_method(&name, recv, &inner, &args, env, hint, at),
